@@ -50,7 +50,8 @@ def C01(ck):
     dom = vlib.gen_export("Gen_Claims", "Gen_Claims.cfg", "domains")
     hist, nh = vlib.gen_sim("Sim_Claims", "Sim_Claims.cfg", "hist", 300 if ck.tier == "quick" else 5000, 45, ck.seed)
     try:
-        stats, res = ck.run_and_judge(["claims-read", "-seed", ck.seed, "-tier", ck.tier, "-in", dom, "-out", ck.path("cr")], "Trace_Claims")
+        stats, res = ck.run_and_judge(["claims-read", "-seed", ck.seed, "-tier", ck.tier, "-in", dom, "-in2", vlib.REPO + "/testvectors/json",
+                                       "-out", ck.path("cr")], "Trace_Claims")
         # "the verdict depends on nothing else": validation inside setter / outside-mutation histories
         ck.run_and_judge(["claims-hist", "-seed", ck.seed, "-in", hist, "-out", ck.path("ch")], "Trace_Claims")
     finally:
@@ -108,7 +109,8 @@ def C13(ck):
         ck.run_and_judge(["filter", "-in", chains, "-out", ck.path("fl")], "Trace_Claims")
         ck.run_and_judge(["claims-sweep", "-seed", ck.seed, "-in", dom, "-out", ck.path("cs")], "Trace_Claims")
         n = 2000 if ck.tier == "quick" else 50000
-        stats, res = ck.run_and_judge(["claims-read", "-seed", ck.seed, "-tier", ck.tier, "-n", n, "-in", dom, "-out", ck.path("cr")], "Trace_Claims")
+        stats, res = ck.run_and_judge(["claims-read", "-seed", ck.seed, "-tier", ck.tier, "-n", n, "-in", dom, "-in2", vlib.REPO + "/testvectors/json",
+                                       "-out", ck.path("cr")], "Trace_Claims")
         _need_both_polarities(res, "C13")
     finally:
         _rm(dom, chains)
